@@ -59,7 +59,11 @@ func genC14(cs *CaseSet, rng *Rng, tier string, dir string) {
 		all[i] = 255
 	}
 	for run := 0; run < nRuns; run++ {
-		board := string(patBytes(38000+rng.Intn(20000), byte(run)))
+		boardLen := 38000 + rng.Intn(20000)
+		if run%3 == 1 { // the largest field there is: the reply carrying it is longer than 64 KiB on the wire
+			boardLen = 65511 + rng.Intn(25)
+		}
+		board := string(patBytes(boardLen, byte(run)))
 		env := NewEnv(fmt.Sprintf("%s-%d", dir, run), EnvOpts{Board: board, Agreement: "a",
 			Accounts: []hotline.Account{{Login: "adm", Name: "Adm", Password: hotline.HashAndSalt([]byte("")), Access: all}}})
 		nCl := 3 + rng.Intn(4)
